@@ -34,7 +34,7 @@ class Node:
 class Vol:
     def __init__(self, fat32, lba, spc=1, reserved=None, nfats=2, nclusters=None, root_entries=512,
                  root_cluster=2, fat_slack_sectors=0, tail_slack=0, info="ok", label=b"NO NAME    ",
-                 part_type=None, total16=None, dirty_free=0):
+                 part_type=None, total16=None, dirty_free=0, high_nibble=0):
         self.fat32, self.lba, self.spc, self.nfats = fat32, lba, spc, nfats
         self.reserved = reserved if reserved is not None else (32 if fat32 else 1)
         self.N = nclusters if nclusters is not None else (65525 if fat32 else 4085)
@@ -62,6 +62,7 @@ class Vol:
             self.root.chain = [root_cluster]
             self.root.cluster = root_cluster
         self.dirty_free = dirty_free
+        self.high_nibble = high_nibble      # FAT32: reserved top 4 bits of in-use entries (readers must ignore them)
         self.EOC = 0x0FFFFFFF if fat32 else 0xFFFF
 
     # ---- low level
@@ -229,6 +230,8 @@ class Vol:
         for s in range(self.fat_size):
             ents = self.fat[s * per:(s + 1) * per]
             if any(ents):
+                if self.fat32 and self.high_nibble:
+                    ents = [(e | (self.high_nibble << 28)) if e else e for e in ents]
                 raw = b"".join((le32(e) if self.fat32 else le16(e)) for e in ents).ljust(512, b"\0")
                 for f in range(self.nfats):
                     self.blk(self.first_fat + f * self.fat_size + s)[:] = raw
